@@ -168,10 +168,10 @@ pub fn run(args: &Args) -> ! {
         h.nontrivial(fp(name));
         check_model(h, m)
     });
-    ctx.run_prop("generated", ctx.tier().pick(10_000, 400_000), physical_plan, check_plan);
+    ctx.run_prop("generated", ctx.tier().pick(40_000, 600_000), physical_plan, check_plan);
     ctx.run_prop(
         "monotone",
-        ctx.tier().pick(3_000, 100_000),
+        ctx.tier().pick(12_000, 150_000),
         || (model::plan(Params { open: false, shades: 0, uses: false, unpositioned: false, ..Params::default() }), any::<u16>(), any::<bool>()),
         check_monotone,
     );
